@@ -681,6 +681,24 @@ func skeletonOK(items []item) bool {
 			return false
 		}
 	}
+	// a package never defines a name it also imports: with (use-package 'q) in
+	// user, the names q exports are not defined in user (which binding a
+	// reference reaches would depend on evaluation order, not on scope)
+	for _, it := range items {
+		if it.k != itUse {
+			continue
+		}
+		for _, e := range items {
+			if e.k != itExport || e.pkg != 1 {
+				continue
+			}
+			for _, d := range items {
+				if (d.k == itDefun || d.k == itSet) && d.pkg == 0 && d.n == e.n {
+					return false
+				}
+			}
+		}
+	}
 	// use-package 'q needs an export in q somewhere in the session
 	for _, it := range items {
 		if it.k != itUse {
@@ -930,7 +948,7 @@ func termHasKey(t *term) bool {
 }
 
 var allTags = []string{"&key", "&optional", "&rest", "callkey", "defmacro", "defmacro-free", "defmacro-free-eq-param", "dotimes", "export", "export-in-other-file",
-	"files", "funarg", "gset", "let-dup", "macrolet", "macrolet-free", "pkg", "prefix", "qref", "qref-in-brackets", "redefine", "use", "use-with-local-export"}
+	"files", "funarg", "gset", "let-dup", "let-value-closure", "macrolet", "macrolet-free", "pkg", "prefix", "qref", "qref-in-brackets", "redefine", "use", "use-with-local-export"}
 
 func termTags(t *term, tags map[string]bool, inBrackets bool) {
 	if t == nil {
@@ -947,9 +965,21 @@ func termTags(t *term, tags map[string]bool, inBrackets bool) {
 		tags["prefix"] = true
 	case kGSet:
 		tags["gset"] = true
+	case kLet:
+		if closureSees(t.kids[0], 1<<uint(t.n), false) {
+			tags["let-value-closure"] = true
+		}
 	case kLet2, kLetS2:
 		if t.n == t.p {
 			tags["let-dup"] = true
+		}
+		both := uint8(1)<<uint(t.n) | uint8(1)<<uint(t.p)
+		second := both
+		if t.k == kLetS2 {
+			second = 1 << uint(t.p) // the second let* value legitimately sees the first binding
+		}
+		if closureSees(t.kids[0], both, false) || closureSees(t.kids[1], second, false) {
+			tags["let-value-closure"] = true
 		}
 	case kMacrolet:
 		if t.q >= 0 {
@@ -974,6 +1004,60 @@ func termTags(t *term, tags map[string]bool, inBrackets bool) {
 		}
 		termTags(k, tags, br)
 	}
+}
+
+// closureSees reports whether a closure created inside t (lambda, flet/labels
+// function, #^ lambda) refers to one of the names in the mask without
+// rebinding it first.  Used on let binding values: the evaluator evaluates
+// them in the let's own environment, so such a closure sees the let's
+// bindings, while the analyzer resolves it in the outer scope.
+func closureSees(t *term, names uint8, inClosure bool) bool {
+	if t == nil || names == 0 {
+		return false
+	}
+	has := func(n int8) bool { return n >= 0 && names&(1<<uint(n)) != 0 }
+	without := func(ns ...int8) uint8 {
+		m := names
+		for _, n := range ns {
+			m &^= 1 << uint(n)
+		}
+		return m
+	}
+	switch t.k {
+	case kRef:
+		return inClosure && has(t.n)
+	case kCall, kCallKey, kSetBang, kFunArg:
+		if inClosure && has(t.n) {
+			return true
+		}
+	case kPrefix:
+		if has(t.n) {
+			return true
+		}
+	case kLambda:
+		return closureSees(t.kids[0], without(t.n), true)
+	case kFlet:
+		return closureSees(t.kids[0], without(t.p), true) || closureSees(t.kids[1], without(t.n), inClosure)
+	case kLabels:
+		return closureSees(t.kids[0], without(t.n, t.p), true) || closureSees(t.kids[1], without(t.n), inClosure)
+	case kLet:
+		return closureSees(t.kids[0], names, inClosure) || closureSees(t.kids[1], without(t.n), inClosure)
+	case kLet2, kLetS2:
+		return closureSees(t.kids[0], names, inClosure) || closureSees(t.kids[1], names, inClosure) ||
+			closureSees(t.kids[2], without(t.n, t.p), inClosure)
+	case kDotimes:
+		return closureSees(t.kids[0], without(t.n), inClosure)
+	case kMacrolet:
+		if inClosure && has(t.q) {
+			return true
+		}
+	}
+	for _, k := range t.kids {
+		if closureSees(k, names, inClosure) {
+			return true
+		}
+	}
+	return false
 }
 
 func termFeatures(t *term, f *uint32) {
